@@ -14,7 +14,7 @@ MS = 1_000_000
 
 
 def gen_cfg(rng):
-    router = rng.choice(["queuer", "queuer", "rr", "custom"])
+    router = rng.choice(["queuer", "queuer", "rr", "custom", "kp", "sticky"])
     queue = rng.choice(["default", "default", "prio"])
     d = rng.random()
     if d < 0.2:
@@ -25,7 +25,7 @@ def gen_cfg(rng):
     if rng.random() < 0.25:
         rate = {"refill": rng.choice([0, 1, 1, 2]), "interval": rng.choice([0, 1, 2, 3, 5]) * MS,
                 "max": rng.choice([None, 1, 2, 3]), "initial": rng.choice([None, 0, 1, 2])}
-    n0 = rng.choice([0, 1, 1, 2, 2, 2, 3, 4]) if router == "queuer" else rng.choice([1, 1, 2, 2, 2, 3, 4])
+    n0 = rng.choice([0, 1, 1, 2, 2, 2, 3, 4]) if router in ("queuer", "sticky") else rng.choice([1, 1, 2, 2, 2, 3, 4])
     return {"router": router, "queue": queue, "discard": discard, "rate": rate, "n0": n0}
 
 
@@ -56,9 +56,14 @@ def gen_scenario(rng, style=None):
             n = rng.choice([1, 1, 2, 3, 4, 6]) if style != "burst" else rng.choice([2, 3, 5, 7])
             for _ in range(n):
                 nid += 1
-                prio = rng.choice([0, 1, 2, 3, 3, 4, 6])
-                disc = 1 if rng.random() < 0.75 else 0
-                ops.append(("d", nid, rng.randint(0, 7), prio, disc))
+                if c["router"] in ("kp", "sticky"):
+                    # few distinct keys, so that key affinity / stickiness is exercised
+                    rk, prio, disc = rng.choice([(0, 3, 1), (0, 3, 1), (1, 3, 1), (2, 1, 1), (3, 3, 0), (5, 4, 1)])
+                else:
+                    prio = rng.choice([0, 1, 2, 3, 3, 4, 6])
+                    disc = 1 if rng.random() < 0.75 else 0
+                    rk = rng.randint(0, 7)
+                ops.append(("d", nid, rk, prio, disc))
                 if rng.random() < 0.3:
                     ops.append(("settle",))
                     settles += 1
@@ -109,8 +114,20 @@ USIZE_MAX = 2**64 - 1
 IMAX = (2**63 - 2**32) * 10**9
 
 
-def cfg_term(c):
-    router = {"queuer": "RQueuer", "rr": "RRoundRobin", "custom": "RCustom"}[c["router"]]
+HASHES = {}   # packed key -> [hash_with_max(key, n) for n in 1..8], filled from the harness
+
+
+def pk(rk, prio, disc):
+    return rk * 65536 + prio * 256 + (1 if disc else 0)
+
+
+def cfg_term(c, ops=()):
+    router = {"queuer": "RQueuer", "rr": "RRoundRobin", "custom": "RCustom", "kp": "RKeyPersistent",
+              "sticky": "RSticky"}[c["router"]]
+    table = "[]"
+    if c["router"] == "kp":
+        keys = sorted({pk(o[2], o[3], o[4]) for o in ops if o[0] == "d"})
+        table = "[" + "; ".join(f"({k}, [" + "; ".join(str(h) for h in HASHES[k]) + "])" for k in keys) + "]"
     queue = {"default": "QDefault", "prio": "QPrio"}[c["queue"]]
     disc = "None" if c["discard"] is None else \
         f"(Some ({c['discard'][1]}, {'Newest' if c['discard'][0] == 'newest' else 'Oldest'}))"
@@ -121,7 +138,7 @@ def cfg_term(c):
         maxb = USIZE_MAX // 2 if r["max"] is None else r["max"]
         init = "None" if r["initial"] is None else f"(Some {r['initial']})"
         rate = f"(Some (mkCfg {r['refill']} {r['interval']} {maxb} {USIZE_MAX} {IMAX}, {init}))"
-    return f"(mkFcfg {router} {queue} {disc} {rate} {c['n0']})"
+    return f"(mkFcfg {router} {queue} {disc} {rate} {c['n0']} {table})"
 
 
 def op_term(o):
@@ -213,13 +230,20 @@ def factory_part(chk, build, factor):
                 scns.insert(0, json.load(open(os.path.join(corpus_dir, f))))
     for s in scns:
         s["ops"] = [tuple(o) for o in s["ops"]]
+    # KeyPersistentRouting's hash (DefaultHasher) is data of the scenario: ask the real function
+    keys = sorted({(o[2], o[3], o[4]) for s in scns if s["cfg"]["router"] == "kp" for o in s["ops"] if o[0] == "d"})
+    if keys:
+        hs = run_harness(build, "eng_capacity", [f"hash {a} {b} {c}" for a, b, c in keys])
+        for (a, b, c), h in zip(keys, hs):
+            HASHES[pk(a, b, c)] = parse_term(h)
     impl = run_harness(build, "eng_capacity", [scn_line(s) for s in scns], shards=8)
     exprs = []
     for s, iv in zip(scns, impl):
         it = parse_term(iv)
         s["impl"] = it
-        exprs.append(f"(factory_run {cfg_term(s['cfg'])} {ops_term(s['ops'])}, "
-                     f"check_C15_factory_clauses {cfg_term(s['cfg'])} {obs_term(s, it)})")
+        ct = cfg_term(s["cfg"], s["ops"])
+        s["cfg_term"] = ct
+        exprs.append(f"(factory_run {ct} {ops_term(s['ops'])}, check_C15_factory_clauses {ct} {obs_term(s, it)})")
     model = coq_eval("C15f", IMPORTS, exprs)
     distinct = set()
     for k, (s, mv) in enumerate(zip(scns, model)):
@@ -246,7 +270,7 @@ def factory_part(chk, build, factor):
                 chk.count("factory.scenarios_with." + key)
         if kinds.get("EDiscard.Loadshed") or kinds.get("EStopped") or kinds.get("ELost") or kinds.get("EDiscard.RateLimited"):
             distinct.add(scn_line(s))
-        desc = {"kind": "factory", "harness_line": scn_line(s), "coq_cfg": cfg_term(s["cfg"]),
+        desc = {"kind": "factory", "harness_line": scn_line(s), "coq_cfg": s["cfg_term"],
                 "coq_ops": ops_term(s["ops"])}
         bad = [name for name, v in zip(ORACLE_CLAUSES, clauses) if v != "true"]
         diff = None
